@@ -145,6 +145,13 @@ func (n *Tree[V]) addNode(path string, wildcardKeys []string, inStaticToken bool
 			}
 
 			wildcardKeys = append(wildcardKeys, thisToken)
+
+			// As for any other node, ensure the wildcard keys are the same as those of the values already
+			// present. Otherwise, these would be exposed under the keys of the value added last.
+			if len(n.catchAllChild.values) != 0 && !slices.Equal(n.catchAllChild.wildcardKeys, wildcardKeys) {
+				return nil, fmt.Errorf("%w: %s is ambigous - wildcard keys differ", ErrInvalidPath, path)
+			}
+
 			n.catchAllChild.wildcardKeys = wildcardKeys
 
 			return n.catchAllChild, nil
